@@ -10,7 +10,10 @@ EXPLANATION = ("Decides the structural part: every registered handler (and the f
                "error's own status; every heavy, request-driven core call made by a handler runs inside a closure handed to "
                "tokio::task::spawn_blocking whose JoinError (panic) is mapped to an HttpError; the constant statuses at the HttpError "
                "construction sites follow the documented table and none is 2xx; unknown paths and unsupported methods are routed to "
-               "fallbacks that produce the envelope. That the server survives arbitrary bodies depends on C16's undecided part; "
+               "fallbacks that produce the envelope; the code that runs on the async runtime while a request is answered (handlers, "
+               "fallbacks, middleware error mappers, IntoResponse impls and their callees in the crate, minus spawn_blocking "
+               "closures) has no undischarged unwrap/expect/panic!/assert! and no byte-offset string operation whose offset is not a "
+               "char boundary by construction. That the server survives arbitrary bodies depends on C16's undecided part; "
                "chunked over-limit bodies depend on tower-http's runtime behaviour.")
 
 HTTPERR = "searchlite_http::HttpError"
